@@ -377,7 +377,7 @@ func ruleR05a(c *Ctx) {
 			c.bad("R05a", ls.key, ls.loop.Pos(), "with every rune read yielding eof the loop can repeat without leaving (head facts: "+describeSpin(c, ev, res)+"); an input truncated here never returns")
 		}
 	}
-	c.floor("R05a", "scanner loops that read input", 14, len(loops))
+	c.floor("R05a", "scanner loops that read input", 10, len(loops))
 }
 
 // R05b: every parser loop leaves once the token stream is exhausted.
